@@ -439,6 +439,10 @@ class Enumerator:
             return
         # primitive: substitute locals (and tracked attributes)
         prim = test if substituted else subst(test, st.env)
+        norm = self._truth_equivalent(prim)
+        if norm is not None:
+            yield from self.branch(norm, st, line, True)
+            return
         if isinstance(prim, (ast.BoolOp, ast.IfExp)) or (
                 isinstance(prim, ast.UnaryOp)
                 and isinstance(prim.op, ast.Not)):
@@ -479,6 +483,36 @@ class Enumerator:
             if done:
                 return
         yield from self._branch_prim(prim, st, line)
+
+    def _truth_equivalent(self, prim):
+        """bool(x), len(x), len(x) > 0, len(x) == 0 ... as the truth test
+        of x they stand for."""
+        def is_builtin(call, name):
+            return isinstance(call, ast.Call) and isinstance(
+                call.func, ast.Name) and call.func.id == name and len(
+                    call.args) == 1 and not call.keywords and \
+                self.prog.resolve(self._stack[-1].module, call.func) == \
+                'builtin:' + name
+        if is_builtin(prim, 'bool') or is_builtin(prim, 'len'):
+            return prim.args[0]
+        if isinstance(prim, ast.Compare) and len(prim.ops) == 1:
+            a, b, op = prim.left, prim.comparators[0], prim.ops[0]
+            name = type(op).__name__
+            if isinstance(a, ast.Constant) and is_builtin(b, 'len'):
+                a, b = b, a
+                name = {'Lt': 'Gt', 'Gt': 'Lt', 'LtE': 'GtE',
+                        'GtE': 'LtE'}.get(name, name)
+            if is_builtin(a, 'len') and isinstance(b, ast.Constant) and \
+                    isinstance(b.value, int) and not isinstance(b.value,
+                                                                bool):
+                x = a.args[0]
+                neg = ast.UnaryOp(op=ast.Not(), operand=x)
+                k = b.value
+                if (name, k) in (('Gt', 0), ('GtE', 1), ('NotEq', 0)):
+                    return x
+                if (name, k) in (('Eq', 0), ('Lt', 1), ('LtE', 0)):
+                    return neg
+        return None
 
     def _inline_target(self, call):
         if not isinstance(call, ast.Call) or self.inline is None:
@@ -521,13 +555,12 @@ class Enumerator:
         """('any'|'all', comprehension) for any(<one-generator comp>)."""
         if isinstance(prim, ast.Call) and isinstance(prim.func, ast.Name) \
                 and prim.func.id in ('any', 'all') and len(prim.args) == 1 \
-                and not prim.keywords and isinstance(
-                    prim.args[0], (ast.GeneratorExp, ast.ListComp)) and len(
-                        prim.args[0].generators) == 1 and not \
-                prim.args[0].generators[0].is_async and self.quantifiers:
-            if self.prog.resolve(self._stack[-1].module, prim.func) == \
+                and not prim.keywords and self.quantifiers:
+            comp = self._as_comprehension(prim.args[0])
+            if comp is not None and self.prog.resolve(
+                    self._stack[-1].module, prim.func) == \
                     'builtin:' + prim.func.id:
-                return prim.func.id, prim.args[0]
+                return prim.func.id, comp
         return None
 
     def _as_comprehension(self, e, depth=4):
@@ -611,6 +644,8 @@ class Enumerator:
                 return None
         if grown:
             return True
+        if prim.id in self.__dict__.get('_comp_accs', ()):
+            return False          # an unfolded comprehension nothing joined
         d = self.defs.get(prim.id)
         if isinstance(d, (ast.List, ast.Tuple, ast.Set, ast.Dict)):
             # passed to another call it may have been filled there
@@ -913,6 +948,7 @@ class Enumerator:
         line = getattr(value, 'lineno', 0)
         g = v.generators[0]
         acc = self.fresh(v, 'm')
+        self.__dict__.setdefault('_comp_accs', set()).add(acc.id)
         if isinstance(v, ast.DictComp):
             app = ast.Assign(targets=[ast.Subscript(
                 value=ast.Name(id=acc.id, ctx=ast.Load()), slice=v.key,
@@ -1344,6 +1380,19 @@ class Enumerator:
                     isinstance(e, ast.Starred) for e in node.iter.elts) \
                 and self.unroll:
             yield from self._for_unrolled(node, node.iter.elts, st, handlers)
+            return
+        if self.comps and isinstance(node.iter, (
+                ast.ListComp, ast.GeneratorExp, ast.SetComp)) and len(
+                    node.iter.generators) == 1:
+            # the comprehension is built first, then walked
+            for s, v, rs in self.eval_value(node.iter, st, handlers):
+                if rs is not None:
+                    yield s, rs
+                    continue
+                loop = ast.For(target=node.target, iter=v, body=node.body,
+                               orelse=node.orelse)
+                ast.copy_location(loop, node)
+                yield from self._for(loop, s, handlers)
             return
         s0 = st.fork()
         it = subst(node.iter, s0.env)
